@@ -144,7 +144,7 @@ func runC09(c *Ctx) {
 			}
 		}
 	}
-	c.check(len(mutSites) == 1 && mutSites[0].callee == "os.Create", "C09.2", "internal/kessoku:single-writer", "-",
+	c.check(len(mutSites) == 1 && (mutSites[0].callee == "os.Create" || mutSites[0].callee == "os.OpenFile" || mutSites[0].callee == "os.WriteFile"), "C09.2", "internal/kessoku:single-writer", "-",
 		"internal/kessoku has exactly one filesystem mutator call site (os.Create of the output file)", fmt.Sprintf("%d site(s): %v", len(mutSites), siteNames(L, mutSites)))
 	validators := map[string]bool{"(*" + genPkg + ".Parser).ParseFile": true, genPkg + ".CreateInjector": true}
 	for _, m := range mutSites {
